@@ -125,10 +125,31 @@ Proof.
   - reflexivity.
 Qed.
 
-(* matching never fails: [glob_match] is a total function into bool by construction; the statement
-   below records it in the form the property asks for ("building a matcher never fails"). *)
-Theorem glob_total p s : glob_match p s = true \/ glob_match p s = false.
-Proof. destruct (glob_match p s); auto. Qed.
+(* "building a matcher never fails": that [glob_match] is a total function into bool is its TYPE (there is no error branch to
+   exclude), so nothing is stated about that.  What can be stated is that every pattern is meaningful -- none is rejected, none
+   denotes the empty language: the pattern with its stars removed is a string it matches (every other character, '?' included,
+   stands for itself or for any one character), and it is the shortest one. *)
+Definition witness (p : list A) : list A := filter (fun c => negb (eqb c star)) p.
+Lemma gm_witness p : gm (tokens p) (witness p).
+Proof.
+  induction p as [|c p IH]; simpl; [constructor|]. unfold tok_of.
+  destruct (eqb c star) eqn:Es; simpl; [apply gm_star0; exact IH|].
+  destruct (eqb c qm); constructor; exact IH.
+Qed.
+Theorem glob_satisfiable p : glob_match p (witness p) = true.
+Proof. unfold glob_match. apply gmb_ok. apply gm_witness. Qed.
+Lemma gm_length p : forall s, gm p s -> length (filter (fun t => match t with AnyStar => false | _ => true end) p) <= length s.
+Proof.
+  intros s H. induction H as [|a p s H IH|a p s H IH|p s H IH|a p s H IH]; cbn [filter length] in *; lia.
+Qed.
+Lemma witness_length p :
+  length (witness p) = length (filter (fun t => match t with AnyStar => false | _ => true end) (tokens p)).
+Proof.
+  unfold witness, tokens. induction p as [|c p IH]; [reflexivity|]. cbn [filter map]. unfold tok_of at 1.
+  destruct (eqb c star); cbn [negb]; [exact IH|]. destruct (eqb c qm); cbn [length]; f_equal; exact IH.
+Qed.
+Theorem glob_witness_shortest p s : glob_match p s = true -> length (witness p) <= length s.
+Proof. unfold glob_match. rewrite gmb_ok. intros H. apply gm_length in H. rewrite witness_length. exact H. Qed.
 
 (* case-insensitive variant used for action names: fold both sides, wildcards are fixed by fold *)
 Variable fold : A -> A.
